@@ -141,7 +141,7 @@ func CheckC02(c *Ctx) {
 			c.Extra["v2_objects_enumerated"] = total
 		} else {
 			c.Parallel("v2-sample", 3_000_000, 4096, func(w *Worker, i int) {
-				a := gen.RandomAssign(w.R, v)
+				a := gen.MixedAssign(w.R, v)
 				objCase(w, api, a, w.R.Intn(NStyles))
 				c.Distinct.Add(HashBytes(spec.V20, a))
 			})
@@ -153,12 +153,7 @@ func CheckC02(c *Ctx) {
 		}
 		api, vi := api, vi
 		c.Parallel("random-"+api.Ver.Name, c.Pick(3_000_000, 60_000_000), 4096, func(w *Worker, i int) {
-			var a spec.Assign
-			if w.R.Bool() {
-				a = gen.RandomAssign(w.R, api.Ver)
-			} else {
-				a = gen.SparseAssign(w.R, api.Ver, 1+w.R.Intn(3), 4)
-			}
+			a := gen.MixedAssign(w.R, api.Ver)
 			objCase(w, api, a, w.R.Intn(NStyles))
 			if c.Quick || i&7 == 0 {
 				c.Distinct.Add(HashBytes(vi, a))
@@ -839,15 +834,7 @@ func CheckC16(c *Ctx) {
 	})
 	// random assignments in random history styles
 	c.Parallel("random", c.Pick(4_000_000, 100_000_000), 4096, func(w *Worker, i int) {
-		var a spec.Assign
-		switch w.R.Intn(3) {
-		case 0:
-			a = gen.RandomAssign(w.R, v)
-		case 1:
-			a = gen.SparseAssign(w.R, v, 1, 12)
-		default:
-			a = gen.SparseAssign(w.R, v, 1, 3)
-		}
+		a := gen.MixedAssign(w.R, v)
 		check(w, a, w.R.Intn(NStyles), "random")
 		if c.Quick || i&15 == 0 {
 			c.Distinct.Add(HashBytes(43, a))
